@@ -159,6 +159,7 @@ type Node struct {
 	closeView    map[uint64]string // by viewKey(front, id)
 	closeView2   map[uint64]string
 	closeWatched map[uint64]bool
+	hooked       map[uint64]bool // connections whose close callback panics (FHook)
 }
 
 var (
